@@ -454,6 +454,102 @@ def _expn(ex, st, args, kwargs, node):
     return ex.map1(lambda t: ex.c.expn(n, t), x, st, kind='real')
 
 
+@model('numpy.diff')
+def _diff(ex, st, args, kwargs, node):
+    """assumed: diff(a)[i] = a[i+1] - a[i] (1-D), length max(n-1, 0)"""
+    a = arr(ex, st, args[0])
+    if a is None or a.ndim != 1 or len(args) > 1 or kwargs:
+        raise Unsupported('np.diff form')
+    n = a.shape[0]
+    cn = conc_int(n)
+    m = max(cn - 1, 0) if cn is not None else (z3.simplify(to_int(n) - 1) if ex.implied(st, to_int(n) >= 1) else ex.c.Max(to_int(n) - 1, 0))
+    return st.alloc(ex.c, Arr((m,), lambda ix: a.elem((_plus1(ix[0]),)) - a.elem((ix[0],)), a.kind))
+
+
+@model('numpy.concatenate', 'numpy.hstack', 'numpy.append')
+def _concatenate(ex, st, args, kwargs, node):
+    """assumed: 1-D concatenation in argument order"""
+    if len(args) == 2 and not (isinstance(args[0], Ref) and isinstance(st.get(args[0]), PyList) and
+                               any(isinstance(x, Ref) for x in st.get(args[0]).items)):
+        items = list(args)           # np.append(a, b)
+    else:
+        v = args[0]
+        items = st.get(v).items if isinstance(v, Ref) else list(v)
+    parts = []
+    for x in items:
+        a = arr(ex, st, x)
+        if a is None:
+            a = Arr((1,), lambda ix, x=x: x, 'real')
+        if a.ndim != 1:
+            raise Unsupported('concatenate of non 1-D')
+        parts.append(a)
+    offs = [0]
+    for a in parts:
+        o = offs[-1]
+        offs.append(o + a.shape[0] if not (is_sym(o) or is_sym(a.shape[0])) else z3.simplify(to_int(o) + to_int(a.shape[0])))
+
+    def el(ix, parts=parts, offs=offs):
+        i = ix[0]
+        ci = conc_int(i)
+        r = to_real(parts[-1].elem((_isub(i, offs[-2]),)))
+        for k in range(len(parts) - 2, -1, -1):
+            inside = (ci < offs[k + 1]) if (ci is not None and not is_sym(offs[k + 1])) else (to_int(i) < to_int(offs[k + 1]))
+            val = to_real(parts[k].elem((_isub(i, offs[k]),)))
+            if inside is True:
+                r = val
+            elif inside is not False:
+                r = z3.If(inside, val, r)
+        return r
+    return st.alloc(ex.c, Arr((offs[-1],), el, 'real'))
+
+
+def _isub(i, o):
+    if not (is_sym(i) or is_sym(o)):
+        return i - o
+    return z3.simplify(to_int(i) - to_int(o))
+
+
+@model('.argsort', 'numpy.argsort')
+def _argsort(ex, st, args, kwargs, node):
+    """assumed: argsort(a) is a permutation p of 0..n-1 (bijection, inverse q) with a[p[i]] <= a[p[i+1]]; nothing
+    is assumed about the order of equal keys"""
+    a = arr(ex, st, args[0])
+    if a is None or a.ndim != 1:
+        raise Unsupported('argsort of non 1-D')
+    n = to_int(a.shape[0])
+    c = ex.c
+    if c.mode == 'bmc':
+        # bounded instance: the permutation is n fresh integers constrained as below (quantifier free)
+        cn = conc_int(n)
+        ps = [c.fresh('perm') for _ in range(cn)]
+        st.assume(z3.And(*[z3.And(p >= 0, p < cn) for p in ps]) if ps else True)
+        if cn > 1:
+            st.assume(z3.Distinct(*ps))
+        A = lambda i: a.elem((i,))
+        for k in range(cn - 1):
+            st.assume(A(ps[k]) <= A(ps[k + 1]))
+        from .engine import Exec
+        return st.alloc(c, Arr((cn,), lambda ix, ps=ps: _select(ps, ix[0]), 'int'))
+    pf = z3.Function('perm!%d' % next(c._fresh), INT, INT)
+    qf = z3.Function('iperm!%d' % next(c._fresh), INT, INT)
+    i, j = c.fresh('pi'), c.fresh('pj')
+    st.assume(z3.ForAll([i], z3.Implies(z3.And(0 <= i, i < n), z3.And(0 <= pf(i), pf(i) < n, qf(pf(i)) == i)), patterns=[pf(i)]))
+    st.assume(z3.ForAll([j], z3.Implies(z3.And(0 <= j, j < n), z3.And(0 <= qf(j), qf(j) < n, pf(qf(j)) == j)), patterns=[qf(j)]))
+    st.assume(z3.ForAll([i, j], z3.Implies(z3.And(0 <= i, i < j, j < n), a.elem((pf(i),)) <= a.elem((pf(j),))),
+                        patterns=[z3.MultiPattern(pf(i), pf(j))]))
+    return st.alloc(c, Arr((a.shape[0],), lambda ix, pf=pf: pf(to_int(ix[0])), 'int'))
+
+
+def _select(items, i):
+    ci = conc_int(i)
+    if ci is not None:
+        return items[ci]
+    r = items[-1]
+    for k in range(len(items) - 2, -1, -1):
+        r = z3.If(to_int(i) == k, items[k], r)
+    return r
+
+
 @model('numpy.cumsum', '.cumsum')
 def _cumsum(ex, st, args, kwargs, node):
     """assumed: cumsum(a)[i] = sum_{j<=i} a[j] (1-D)"""
